@@ -1,7 +1,7 @@
 (* Str.v — byte-string helpers used by the model (Python str operations that the
    modelled code relies on: startswith, split(":",1), replace(x,""), "in", join,
    str(int)).  Strings are Coq [string]s holding UTF-8 bytes. *)
-From Coq Require Import String Ascii List Bool Arith ZArith DecimalString Decimal.
+From Coq Require Import String Ascii List Bool Arith ZArith DecimalString DecimalZ Decimal.
 Import ListNotations.
 Open Scope string_scope.
 
@@ -61,12 +61,7 @@ Definition str_of_nat (n : nat) : string :=
   match n with O => "0" | _ => nat_to_str n end.
 
 (* str(z) for an int *)
-Definition str_of_Z (z : Z) : string :=
-  match z with
-  | Z0 => "0"
-  | Zpos p => NilEmpty.string_of_uint (Pos.to_uint p)
-  | Zneg p => String "-"%char (NilEmpty.string_of_uint (Pos.to_uint p))
-  end.
+Definition str_of_Z (z : Z) : string := NilZero.string_of_int (Z.to_int z).
 
 Fixpoint concat_str (sep : string) (l : list string) : string :=
   match l with
